@@ -1,6 +1,7 @@
 # -*- coding: utf-8 -*-
 """C09 Accelerated (compiled) matcher and reference matcher return the same mappings -- layout / predicate-set clauses."""
 from ..r_matcher import run_matcher_rules
+from ..r_hygiene import rule_hygiene as _rule_hygiene
 
 LEVEL = 'other'
 
@@ -17,3 +18,4 @@ def run(ck, repo):
                      'molecules with more than 14 neighbours) -- reported as notes',
                      'the search loop of the .pyx (stack handling, closure bookkeeping) vs the python generator: control-flow equivalence is not decided']
     run_matcher_rules(ck, repo, ck.tier == 'thorough')
+    _rule_hygiene(ck, repo, 'C09.H-dataflow-hygiene', 'C09')
